@@ -164,7 +164,7 @@ def classify(case: dict, res: dict) -> list[tuple[str | None, str, dict]]:
         probs.append(("foreign", f, "imports a module outside stdlib/httpx/cattrs/the package"))
     for kind, where, msg in probs:
         fid = None
-        if kind == "import" and feats["enum_default_unsafe"] and ("has no attribute" in msg or "invalid" in msg.lower() or "SyntaxError" in msg or "NameError" in msg):
+        if kind in ("import", "syntax") and feats["enum_default_unsafe"] and ("has no attribute" in msg or "invalid" in msg.lower() or "SyntaxError" in msg or "NameError" in msg):
             fid = "F53"
         elif "'return' with value in async generator" in msg and feats["stream_with_other_2xx"]:
             fid = "F35"
